@@ -10,7 +10,7 @@ DESIGN_REF = "DESIGN.md section 3, C04"
 RULE = (
     "inputs: exhaustively every byte string of length 0..2 (65,793), every single-bit flip of 16 "
     "reference frames, Hypothesis binary strings up to 4 KiB with lengths biased to 0,1,2^k+-1, hex spelled "
-    "lower/upper/mixed case, and strings that are not hex (odd length / non-hex printable characters); "
+    "lower/upper/mixed case, and strings that are not hex (odd length / non-hex printable characters / embedded blanks); "
     "oracle: independent bitwise CRC-16 (poly 0x1021, init 0x1021) applied twice as the statement says. "
     "Non-trivial = a CRC with a zero leading nibble or the high bit set in either half, or an input longer "
     "than 255 bytes, or a non-lower-case spelling, or an invalid input; distinct by input string."
@@ -138,12 +138,13 @@ def strat_invalid():
         pos = pos % (len(s) + 1)
         return s[:pos] + ch + s[pos:]
     nonhex = st.tuples(hexes, st.integers(0, 64), st.text(alphabet=NONHEX, min_size=1, max_size=3)).map(inject)
-    return st.one_of(odd, nonhex).map(lambda s: {"text": s})
+    blanks = st.tuples(hexes, st.integers(0, 64), st.text(alphabet=" \t\n\r", min_size=1, max_size=2)).map(inject)
+    return st.one_of(odd, nonhex, blanks).map(lambda s: {"text": s})
 
 
 def body_invalid(rep, case):
     s = case["text"]
-    rep.tick("invalid", key=s, nontrivial=True, sample=case, labels=("odd-length",) if len(s) % 2 else ("non-hex",))
+    rep.tick("invalid", key=s, nontrivial=True, sample=case, labels=("blank-inside",) if any(c in s for c in " \t\n\r") else ("odd-length",) if len(s) % 2 else ("non-hex",))
     try:
         out = _sign()(s)
     except Exception:  # any exception type is a rejection
